@@ -98,7 +98,10 @@ func (d *DifferV3) handleInsert(change *object.Change) (*FileChange, error) {
 	if !d.cfg.IsTargetFile(fileName) {
 		return nil, nil
 	}
+	// change.Patch reads blobs from the shared repository: serialized (see repoInfo.objMu)
+	d.repoInfo.objMu.Lock()
 	patch, err := change.Patch()
+	d.repoInfo.objMu.Unlock()
 	if err != nil || patch == nil {
 		return nil, err
 	}
